@@ -127,6 +127,12 @@ def thread_jumps(body, rounds=4, hops=4):
             if st["k"] == "assign" and not st["lhs"]["p"] and st["rv"]["k"] == "use" and st["rv"]["op"]["k"] in ("copy", "move") \
                     and not st["rv"]["op"]["pl"]["p"]:
                 continue
+            if st["k"] == "assign" and not st["lhs"]["p"] and st["rv"]["k"] == "discr" and not st["rv"]["pl"]["p"]:
+                continue     # reading a discriminant has no effect; the value read is resolved below
+            if st["k"] == "assign" and not st["lhs"]["p"] and st["rv"]["k"] == "use" and st["rv"]["op"]["k"] == "const":
+                continue     # constants assigned to locals (drop flags, literals)
+            if st["k"] == "assign" and not st["lhs"]["p"] and st["rv"]["k"] == "agg" and st["rv"].get("ak") == "tuple" and not st["rv"]["ops"]:
+                continue     # `()`
             return False
         return True
 
@@ -157,14 +163,32 @@ def thread_jumps(body, rounds=4, hops=4):
             if op["k"] not in ("copy", "move") or op["pl"]["p"]:
                 continue
             src = op["pl"]["l"]
+            via_discr = False
+            val = None
+            known = False
             for blk in reversed(chain):
                 for st in reversed(blk["stmts"]):
-                    if st["k"] == "assign" and st["lhs"]["l"] == src:
-                        src = st["rv"]["op"]["pl"]["l"]
-            val = None
-            for st in reversed(b["stmts"]):
+                    if known:
+                        break
+                    if st["k"] == "assign" and st["lhs"]["l"] == src and not st["lhs"]["p"]:
+                        if st["rv"]["k"] == "discr":
+                            via_discr = True
+                            src = st["rv"]["pl"]["l"]
+                        elif st["rv"]["k"] == "use" and st["rv"]["op"]["k"] in ("copy", "move"):
+                            src = st["rv"]["op"]["pl"]["l"]
+                        else:
+                            # defined inside the chain by a constant / unit: decided there (or not at all)
+                            if st["rv"]["k"] == "use" and st["rv"]["op"]["k"] == "const" and isinstance(st["rv"]["op"].get("v"), int) and not via_discr:
+                                val = st["rv"]["op"]["v"]
+                            known = True
+            for st in ([] if known else reversed(b["stmts"])):
                 if st["k"] == "assign" and st["lhs"]["l"] == src:
-                    if not st["lhs"]["p"] and st["rv"]["k"] == "use" and st["rv"]["op"]["k"] == "const" and isinstance(st["rv"]["op"].get("v"), int):
+                    if via_discr:
+                        # `X = Some(..) / None / Ok(..) / Err(..)` built here and its discriminant tested at T
+                        if not st["lhs"]["p"] and st["rv"]["k"] == "agg" and st["rv"].get("ak") == "adt" and \
+                                st["rv"].get("adt") in (OPT, RES) and isinstance(st["rv"].get("vi"), int):
+                            val = st["rv"]["vi"]
+                    elif not st["lhs"]["p"] and st["rv"]["k"] == "use" and st["rv"]["op"]["k"] == "const" and isinstance(st["rv"]["op"].get("v"), int):
                         val = st["rv"]["op"]["v"]
                     break
             if val is None:
@@ -205,7 +229,7 @@ def strip_logging(body):
     return n
 
 
-def fold_const_switches(body, rounds=3):
+def fold_const_switches(body, rounds=3, discr_of=None):
     """A switch on a local whose only definition in the whole body is a constant (typically a bool/enum parameter of
     an inlined helper called with a literal) becomes a goto."""
     blocks = body["blocks"]
@@ -231,14 +255,26 @@ def fold_const_switches(body, rounds=3):
                 val = op["v"]
             elif op["k"] in ("copy", "move") and not op["pl"]["p"]:
                 l = op["pl"]["l"]
+                via_discr = False
                 for _h in range(6):
                     ds = defs.get(l, [])
                     if len(ds) != 1 or ds[0] is None:
                         break
                     rv = ds[0]
-                    if rv["k"] == "use" and rv["op"]["k"] == "const" and isinstance(rv["op"].get("v"), int):
+                    if via_discr:
+                        # the discriminant of a value whose only definition is a field-less enum literal
+                        if rv["k"] == "agg" and rv.get("ak") == "adt" and not rv.get("ops") and discr_of is not None:
+                            val = discr_of(rv.get("adt"), rv.get("variant"))
+                            break
+                    elif rv["k"] == "use" and rv["op"]["k"] == "const" and isinstance(rv["op"].get("v"), int):
                         val = rv["op"]["v"]
                         break
+                    if rv["k"] == "discr" and not rv["pl"]["p"] and not via_discr:
+                        via_discr = True
+                        l = rv["pl"]["l"]
+                        if l <= body["argc"] and l >= 1:
+                            break
+                        continue
                     if rv["k"] == "use" and rv["op"]["k"] in ("copy", "move") and not rv["op"]["pl"]["p"]:
                         l = rv["op"]["pl"]["l"]
                         if l <= body["argc"] and l >= 1:
@@ -303,6 +339,7 @@ class Inliner:
         self.depth, self.chain = depth, chain
         self.inlined = []
         self._fused = {}
+        self._then_some = set()
         i = 0
         while i < len(blocks):
             if len(blocks) > MAX_BLOCKS:
@@ -310,12 +347,12 @@ class Inliner:
             b = blocks[i]
             t = b["term"]
             if t["k"] == "call" and depth[i] < self.max_depth:
-                if self._try_fusion(i, b, t) or self._try_combinator(i, b, t) or self._try_direct(i, b, t):
+                if self._try_fusion(i, b, t) or self._try_combinator(i, b, t) or self._try_closure_call(i, b, t) or self._try_direct(i, b, t):
                     continue  # re-examine the same block index (its terminator is now a goto) -> moves on next iteration
             i += 1
         stripped = strip_logging(body)
         if self.inlined or stripped:
-            fold_const_switches(body)
+            fold_const_switches(body, discr_of=self._discr_of)
             thread_jumps(body)
             prune_unreachable(body)
         rec = dict(fn.rec)
@@ -380,6 +417,58 @@ class Inliner:
         self.inlined.append(callee.key)
         self.absorbed.add(callee.key)
 
+    def _discr_of(self, adt, variant):
+        try:
+            for v in self.fb.adt(adt)["variants"]:
+                if v["name"] == variant and isinstance(v.get("discr"), int):
+                    return v["discr"]
+        except Exception:
+            pass
+        return None
+
+    def _try_closure_call(self, i, b, t):
+        """`f(a, b)` where `f` is a crate-local closure value: MIR has Fn::call(&f, (a, b)) (or call_mut / call_once).  The
+        closure body is spliced in with the tuple's elements as its arguments."""
+        c = callee_of(t)
+        if c is None or c.get("name") not in ("call", "call_mut", "call_once") or len(t["args"]) != 2:
+            return False
+        if not (c.get("trait") or c.get("of_trait") or "").split("::")[-1] in ("Fn", "FnMut", "FnOnce"):
+            return False
+        key = resolved(c).get("key")
+        callee = self.src.get(key)
+        if callee is None or callee.rec.get("dk") != "Closure":
+            # a closure received as a generic parameter by a helper that has been expanded here: the callee is not resolved
+            # in the helper's own body, but the value passed is a closure built in this body
+            ck, _cop = self._closure_of(t["args"][0])
+            if ck is None and t["args"][0]["k"] in ("copy", "move") and not t["args"][0]["pl"]["p"]:
+                d = self._single_def(t["args"][0]["pl"]["l"])
+                if d and d[0] == "assign" and d[1]["k"] == "ref" and not d[1]["pl"]["p"]:
+                    ck, _cop = self._closure_of({"k": "copy", "pl": d[1]["pl"]})
+            callee = self.src.get(ck) if ck and ck != "<fn>" else None
+        if callee is None or callee.rec.get("dk") != "Closure" or callee.key in self.chain[i]:
+            return False
+        tup = t["args"][1]
+        n = callee.argc - 1
+        elems = None
+        if tup["k"] in ("copy", "move") and not tup["pl"]["p"]:
+            for st in reversed(b["stmts"]):
+                if st["k"] == "assign" and st["lhs"]["l"] == tup["pl"]["l"] and not st["lhs"]["p"]:
+                    if st["rv"]["k"] == "agg" and st["rv"].get("ak") == "tuple" and len(st["rv"]["ops"]) == n:
+                        elems = [copy.deepcopy(o) for o in st["rv"]["ops"]]
+                    break
+            if elems is None:
+                elems = [{"k": "move", "pl": {"l": tup["pl"]["l"], "p": [{"k": "field", "i": j, "n": None, "ty": "?"}]}} for j in range(n)]
+        elif tup["k"] == "const" and n == 0:
+            elems = []
+        if elems is None:
+            return False
+        env = copy.deepcopy(t["args"][0])
+        envty = callee.locals[1]["ty"] if len(callee.locals) > 1 else ""
+        if c.get("name") == "call_once" and envty.startswith("&") and not (t.get("atys") or [""])[0].startswith("&"):
+            return False     # by-value call of a by-reference body: not produced by rustc for local closures
+        self._splice(i, callee, [env] + elems, t.get("dest"), t.get("t"), t.get("unwind"), t.get("line", 0))
+        return True
+
     def _try_direct(self, i, b, t):
         c = callee_of(t)
         if c is None:
@@ -387,6 +476,12 @@ class Inliner:
         r = resolved(c)
         key = r.get("key")
         callee = self.src.get(key)
+        if callee is None and c.get("of_trait") and c.get("trait_decl") and str(c.get("of_trait")).startswith(("vhost::", "vhost_user_backend::")):
+            # a call through a workspace trait that could not be resolved at this (generic) site: if the trait has exactly
+            # one implementation of the method in the workspace (a blanket impl of a private helper trait), that is the callee
+            impls = [g for g in self.src.values() if g.trait == c["of_trait"] and g.name == c.get("name") and not g.rec.get("trait_decl")]
+            if len(impls) == 1:
+                callee = impls[0]
         if callee is None or callee.key in self.chain[i]:
             return False
         if callee.rec.get("dk") == "Closure":
@@ -688,7 +783,7 @@ class Inliner:
             kind = "res"
         elif (c.get("trait") or r.get("trait") or "").endswith("iter::Iterator") or (c.get("of_trait") or "").endswith("iter::Iterator"):
             kind = "iter"
-        if kind is None and name == "then" and ((r.get("self_ty") or c.get("self_ty") or "") == "bool" or (t.get("atys") or [""])[0] == "bool"):
+        if kind is None and name in ("then", "then_some") and ((r.get("self_ty") or c.get("self_ty") or "") == "bool" or (t.get("atys") or [""])[0] == "bool"):
             kind = "bool"
         if kind is None:
             return False
@@ -696,6 +791,14 @@ class Inliner:
         if tmpl is None:
             return False
         args = t["args"]
+        if (kind, name) == ("opt", "ok_or"):
+            # only the idiom `cond.then_some(v).ok_or(e)` (an `ensure`-style test) is expanded; elsewhere `ok_or` is kept as
+            # a call (the rules read through it)
+            a0 = args[0]
+            if not (a0["k"] in ("copy", "move") and not a0["pl"]["p"] and a0["pl"]["l"] in self._then_some):
+                return False
+        if (kind, name) == ("bool", "then_some") and t.get("dest") is not None and not t["dest"]["p"]:
+            self._then_some.add(t["dest"]["l"])
         # every closure-typed parameter of the template must be a crate-local closure
         cls = {}
         for idx in tmpl["closures"]:
@@ -897,6 +1000,24 @@ def _build_bool_then(inl, i, t, cls):
 _reg("bool", "then", [1], _build_bool_then)
 
 
+def _build_bool_then_some(inl, i, t, cls):
+    line = t.get("line", 0)
+    b = inl.blocks[i]
+    cnd = inl._new_local("bool")
+    b["stmts"].append(_assign(cnd, _use(copy.deepcopy(t["args"][0])), line))
+    yes = inl._new_block(inl.depth[i], inl.chain[i], b["cleanup"], line)
+    no = inl._new_block(inl.depth[i], inl.chain[i], b["cleanup"], line)
+    b["term"] = {"k": "switch", "op": _mv(cnd), "dty": "bool", "vals": [0], "tgts": [no], "otherwise": yes, "line": line, "exp": False}
+    _finish(inl, yes, t, _agg(OPT, "Some", 1, [copy.deepcopy(t["args"][1])]))
+    _finish(inl, no, t, _agg(OPT, "None", 0, []))
+
+
+_reg("bool", "then_some", [], _build_bool_then_some)
+_reg("opt", "ok_or", [], _opt_build(
+    lambda inl, b, t, cls, pl: _finish(inl, b, t, _agg(RES, "Ok", 0, [_mvp(pl)])),
+    lambda inl, b, t, cls, pl: _finish(inl, b, t, _agg(RES, "Err", 1, [copy.deepcopy(t["args"][1])]))))
+
+
 # ---- Iterator consumers: a `next` loop around the closure.
 NEXT_FN = {"key": "core::iter::traits::iterator::Iterator::next", "path": "std::iter::Iterator::next", "name": "next",
            "dk": "AssocFn", "trait": "std::iter::Iterator", "trait_decl": True, "local": False, "of_trait": "std::iter::Iterator",
@@ -957,7 +1078,76 @@ def _goto(inl, blk, tgt, line=0):
     inl.blocks[blk]["term"] = {"k": "goto", "t": tgt, "line": line, "exp": False}
 
 
+def _array_source(inl, op):
+    """If the iterator operand `op` (a `&mut it` or `it`) is `into_iter(arr)` / `iter(arr)` of an array literal with at most
+    8 elements built in this body, return (element operands, items_by_reference)."""
+    if op["k"] not in ("copy", "move") or op["pl"]["p"]:
+        return None
+    l = op["pl"]["l"]
+    by_ref = False
+    for _ in range(8):
+        d = inl._single_def(l)
+        if d is None:
+            return None
+        if d[0] == "assign":
+            rv = d[1]
+            if rv["k"] == "use" and rv["op"]["k"] in ("copy", "move") and not rv["op"]["pl"]["p"]:
+                l = rv["op"]["pl"]["l"]
+                continue
+            if rv["k"] == "ref" and not rv["pl"]["p"]:
+                l = rv["pl"]["l"]
+                continue
+            if rv["k"] == "cast" and rv["op"]["k"] in ("copy", "move") and not rv["op"]["pl"]["p"]:
+                l = rv["op"]["pl"]["l"]       # &[T; N] -> &[T]
+                continue
+            if rv["k"] == "agg" and rv.get("ak") == "array" and 1 <= len(rv["ops"]) <= 8:
+                return [copy.deepcopy(o) for o in rv["ops"]], by_ref
+            return None
+        _k, bi, t = d
+        c = callee_of(t)
+        if c is None or not t["args"]:
+            return None
+        a0 = t["args"][0]
+        if c.get("name") in ("into_iter", "iter") and a0["k"] in ("copy", "move") and not a0["pl"]["p"]:
+            if c.get("name") == "iter" or (t.get("atys") or [""])[0].startswith("&"):
+                by_ref = True
+            l = a0["pl"]["l"]
+            continue
+        return None
+    return None
+
+
+def _unrolled(inl, i, t, cl, elems, by_ref, stop_on, result_on_stop, result_at_end):
+    """any/all over a literal array: the closure is called on each element in turn (no loop)."""
+    line = t.get("line", 0)
+    d, ch = inl.depth[i], inl.chain[i]
+    cleanup = inl.blocks[i]["cleanup"]
+    ck, cop = cl
+    cur = i
+    for e in elems:
+        rl = inl._new_local("bool")
+        after = inl._new_block(d, ch, cleanup, line)
+        if by_ref:
+            tmp = inl._new_local("?")
+            inl.blocks[cur]["stmts"].append(_assign(tmp, _use(e), line))
+            val = _ref_of(inl, cur, {"l": tmp, "p": []}, line)
+        else:
+            val = e
+        inl._call_closure(cur, ck, cop, [val], rl, after, t.get("unwind"), line)
+        nxt = inl._new_block(d, ch, cleanup, line)
+        stop = inl._new_block(d, ch, cleanup, line)
+        yes, no = (stop, nxt) if stop_on else (nxt, stop)
+        inl.blocks[after]["term"] = {"k": "switch", "op": _mv(rl), "dty": "bool", "vals": [0], "tgts": [no], "otherwise": yes, "line": line, "exp": False}
+        _finish(inl, stop, t, _use(_const_bool(result_on_stop)))
+        cur = nxt
+    _finish(inl, cur, t, _use(_const_bool(result_at_end)))
+    return True
+
+
 def _build_any(inl, i, t, cls):
+    src = _array_source(inl, t["args"][0])
+    if src:
+        return _unrolled(inl, i, t, cls[1], src[0], src[1], True, True, False)
     _iter_loop(inl, i, t, cls[1], False,
                lambda blk, rl, item, head: _bool_branch(inl, blk, rl, t, lambda y: _finish(inl, y, t, _use(_const_bool(True))),
                                                         lambda n: _goto(inl, n, head, t.get("line", 0))),
@@ -965,6 +1155,9 @@ def _build_any(inl, i, t, cls):
 
 
 def _build_all(inl, i, t, cls):
+    src = _array_source(inl, t["args"][0])
+    if src:
+        return _unrolled(inl, i, t, cls[1], src[0], src[1], False, False, True)
     _iter_loop(inl, i, t, cls[1], False,
                lambda blk, rl, item, head: _bool_branch(inl, blk, rl, t, lambda y: _goto(inl, y, head, t.get("line", 0)),
                                                         lambda n: _finish(inl, n, t, _use(_const_bool(False)))),
@@ -1061,6 +1254,7 @@ def default_policy(fb, extra_keep=(), max_blocks=80, inline_known=()):
     reference-tree helpers explicitly named in `inline_known`."""
     keep = set(extra_keep)
     known = baseline()
+    known_traits = {k.split("@", 1)[1] for k in known if "@" in k}
     force = set(inline_known)
     crates = {"vhost", "vhost_user_backend"}
 
@@ -1074,10 +1268,13 @@ def default_policy(fb, extra_keep=(), max_blocks=80, inline_known=()):
         if fn_ident(callee) in known:
             return False
         if callee.trait is not None:
-            return False
-        # request senders (a request code passed by value) are role anchors of the rules even when renamed
-        if any(ty.split("::")[-1] in REQUEST_ENUMS for ty in (callee.rec.get("sig_in") or [])):
-            return False
+            # methods of a trait the reference tree does not have (a private helper trait introduced by a later change) are
+            # helpers like any other; methods of the reference tree's traits and of std traits stay calls
+            tname = callee.trait.split("::")[-1].split("<")[0]
+            if not callee.trait.startswith(("vhost::", "vhost_user_backend::")) or tname in known_traits:
+                return False
+        # (a renamed request sender of the reference tree gets its name back in canon.py and is kept as a call by the test
+        # above; a NEW helper that takes a request code is a helper like any other)
         if len(callee.blocks) > max_blocks:
             return False
         return True
